@@ -4,7 +4,7 @@
    the unconditional opTracer specification. *)
 From GV Require Import Lib.Tactics Lib.Bytes Rlp.Codec Trie.Hex Trie.Node Trie.Ops Trie.Hash.
 From GV Require Import Trie.OpsProofs Trie.Canon Trie.Proof Trie.ProofProofs.
-From GV Require Import Trie.Commit Trie.CommitProofs Trie.CommitTracer Trie.X.CommitReads Trie.X.CommitSim Trie.X.CommitSimDel Trie.X.CommitHist Trie.X.CommitExact Trie.X.CommitEvents Trie.X.CommitTrace Trie.X.CommitPv Trie.X.CommitInv3 Trie.X.CommitNoStale.
+From GV Require Import Trie.Commit Trie.CommitProofs Trie.CommitTracer Trie.CommitReads Trie.CommitSim Trie.CommitSimDel Trie.CommitHist Trie.CommitExact Trie.CommitEvents Trie.CommitTrace Trie.CommitPv Trie.CommitInv3 Trie.CommitNoStale.
 Local Open Scope N_scope.
 
 Section Final.
@@ -127,5 +127,85 @@ Section Final.
     - destruct (IH (reach_pv_ne H PathScheme S ss (reachable_reach S ss Rch))) as (F0 & F & root0 & SO & RX & S3 & _).
       pose proof (sess_getnode_sinv3 H H_len S ss F0 F path g ss' S3 G) as S3'.
       exists F0, F, root0. split; [exact SO|]. split; [exact RX|]. split; assumption.
+  Qed.
+
+  (* ---------------- C07 in full, path scheme ---------------- *)
+
+  (* commit_exact_path: after applying the node set of any reachable session the
+     path store holds EXACTLY the hashed nodes of the ground trie, each under its
+     path with its encoding: no stale node, none missing, none wrong *)
+  Theorem commit_exact_path S ss r ons :
+    reachable H S ss -> commit H ss = Some (r, ons) ->
+    exists F, sinv H S ss F /\ store_ok H (applied S ons) r F /\
+      forall q b, am_get q (applied S ons) = Some b <->
+                  exists Gq, gsub H true [] F q Gq /\ node_enc H Gq = Some b.
+  Proof.
+    intros Rch C. destruct (reachable_ginv S ss Rch) as (F0 & F & root0 & GI).
+    destruct (commit_exact S ss F0 F root0 r ons GI C) as [SO' RX'].
+    destruct GI as (_ & _ & ((SI & _) & _) & _).
+    exists F. split; [exact SI|]. split; [exact SO'|]. intros q b. split; [apply RX'|].
+    intros (Gq & GS & EN). destruct SO' as (_ & _ & SO'').
+    assert (C0 : cov0 H (resolve_of H PathScheme (applied S ons)) true [] F).
+    { destruct F; try (inversion GS; discriminate); destruct SO'' as (e & _ & _ & X); exact X. }
+    destruct (C0 q Gq GS) as (e & EN' & RS). rewrite EN in EN'. inversion EN'; subst e.
+    apply resolve_of_blob in RS. tauto.
+  Qed.
+
+  (* commit_reads_back *)
+  Theorem commit_reads_back S ss r ons key :
+    reachable H S ss -> commit H ss = Some (r, ons) -> forallb byteb key = true ->
+    exists ss2,
+      open_trie H PathScheme (applied S ons) r = TOk ss2 /\
+      exists v t1 d1 ev1 t2 d2 ev2,
+        trie_get (resolve_of H PathScheme S) (s_root ss) key = TOk (v, t1, d1, ev1) /\
+        trie_get (resolve_of H PathScheme (applied S ons)) (s_root ss2) key = TOk (v, t2, d2, ev2).
+  Proof.
+    intros Rch C BK. destruct (reachable_ginv S ss Rch) as (F0 & F & root0 & GI).
+    destruct (commit_exact S ss F0 F root0 r ons GI C) as [(_ & XB & _) _].
+    destruct GI as (_ & _ & ((SI & _) & _) & _).
+    destruct (commit_reads_back_sinv H H_len H_inj_empty S ss F r ons key SI C XB BK)
+      as (ss2 & O & v & t1 & d1 & ev1 & t2 & d2 & ev2 & G1 & G2 & _).
+    exists ss2. split; [exact O|]. exists v, t1, d1, ev1, t2, d2, ev2. split; assumption.
+  Qed.
+
+  Theorem reachable_sinv S ss : reachable H S ss -> exists F, sinv H S ss F /\ gsizes F.
+  Proof.
+    intro Rch. destruct (reachable_ginv S ss Rch) as (F0 & F & root0 & _ & _ & ((SI & Sz & _) & _) & _).
+    exists F. split; assumption.
+  Qed.
+
+  (* the opTracer of every reachable session, unconditionally *)
+  Theorem tracer_reachable S ss : reachable H S ss ->
+    exists F0 F root0, store_ok H S root0 F0 /\ sinv H S ss F /\
+      forall q,
+        (am_has q (tr_del (s_tr ss)) = true <-> gpos [] F0 q /\ ~ gpos [] F q) /\
+        (am_has q (tr_ins (s_tr ss)) = true <-> ~ gpos [] F0 q /\ gpos [] F q) /\
+        (In q (deleted_nodes (s_tr ss)) <->
+         gpos [] F0 q /\ ~ gpos [] F q /\ am_has q (tr_pv (s_tr ss)) = true).
+  Proof.
+    intro Rch. destruct (reachable_ginv S ss Rch) as (F0 & F & root0 & SO & _ & ((SI & _ & T) & _) & _).
+    exists F0, F, root0. split; [exact SO|]. split; [exact SI|]. intro q.
+    destruct (T q) as [TD TI]. split; [exact TD|]. split; [exact TI|].
+    unfold deleted_nodes. split.
+    - intro I. apply in_map_iff in I. destruct I as ([q1 u] & <- & I). cbn [fst] in *.
+      apply filter_In in I. destruct I as [I Fp]. cbn [fst] in Fp.
+      assert (Hq : am_has q1 (tr_del (s_tr ss)) = true).
+      { destruct (am_in_get _ _ _ I) as [v' G]. unfold am_has. rewrite G. reflexivity. }
+      destruct (T q1) as [TD1 _]. apply TD1 in Hq. tauto.
+    - intros (P1 & P2 & P3).
+      assert (Hq : am_has q (tr_del (s_tr ss)) = true) by (apply TD; tauto).
+      apply am_has_true in Hq. destruct Hq as [[] G]. apply am_get_in in G.
+      apply in_map_iff. exists (q, tt). split; [reflexivity|].
+      apply filter_In. split; [exact G|exact P3].
+  Qed.
+
+  (* pre-value coverage, as theorems about every reachable session *)
+  Theorem prevalue_coverage S ss : reachable H S ss ->
+    exists F, sinv H S ss F /\
+      (forall a, stored (resolve_of H PathScheme S) a -> gpos [] (s_root ss) a -> pvd (s_tr ss) a) /\
+      (forall a, stored (resolve_of H PathScheme S) a -> ~ gpos [] F a -> pvd (s_tr ss) a).
+  Proof.
+    intro Rch. destruct (reachable_ginv S ss Rch) as (F0 & F & root0 & _ & _ & ((SI & _) & J & PV) & _).
+    exists F. split; [exact SI|]. split; [exact J|exact PV].
   Qed.
 End Final.
